@@ -98,7 +98,8 @@ def _work(sc):
     try:
         C = Interner()
         r = cd.run_op_with_images(sc["kind"], sc["prep"], sc["op"], C, cfgbackend=sc["cfgbackend"],
-                                  warm=sc.get("warm", ()))
+                                  warm=sc.get("warm", ()), interrupts=sc.get("interrupts", 0),
+                                  seed=sc.get("seed", 0))
         op = sc["op"]
         rec = {"kind": sc["kind"] + ("-gitcfg" if sc["cfgbackend"] else ""), "t": op.get("as", op["t"]),
                "n": op.get("n") or op.get("p"), "prior": sc["prior"], "opname": sc["opname"],
@@ -106,7 +107,8 @@ def _work(sc):
                "pre": r["pre"], "final": r["final"], "oper_error": r["oper_error"],
                "images": [{"k": im["k"], "gate": im["gate"], "torn": im["torn"], "obs": im["obs"]}
                           for im in r["images"]],
-               "gates": r["gates"], "nevents": r["nevents"], "basekind": sc["kind"]}
+               "gates": r["gates"], "nevents": r["nevents"], "basekind": sc["kind"],
+               "interrupt_points": r["interrupt_points"], "interrupt_lines": r["interrupt_lines"]}
         return {"ok": True, "rec": rec}
     except Exception:
         return {"ok": False, "error": traceback.format_exc(), "sc": {k: v for k, v in sc.items() if k not in ("prep", "op")}}
@@ -166,6 +168,10 @@ def run(prop, tier, seed, replay=None):
     rep = common.Report(prop, tier, seed, "fault_enumeration")
     devs = common.open_devs("Crash")
     scs = scenarios(tier, seed)
+    for i, sc in enumerate(scs):
+        # death by a signal delivered as an exception, at sampled lines of the store / git code
+        sc["interrupts"] = 40 if tier == "quick" else 400
+        sc["seed"] = seed * 1000 + i
     if replay:
         r = json.load(open(replay))
         scs = [s for s in scs if (s["kind"], s["prior"], s["opname"], s["cfgbackend"]) ==
@@ -226,6 +232,8 @@ def run(prop, tier, seed, replay=None):
                      "crash_points": r["nevents"], "images": len(r["images"])} for r in recs[:6]],
         "operations": len(recs),
         "crash_points": sum(r["nevents"] for r in recs),
+        "interrupt_points": sum(r["interrupt_points"] for r in recs),
+        "interrupt_lines_total": sum(r["interrupt_lines"] for r in recs),
         "model": models,
         "states": sum(m["distinct"] for m in models) + stat["distinct"] + cstates,
         "exhaustive": True,
